@@ -7,6 +7,8 @@ package driver
 //   hosts <addr> <len> from <i> take <k>   → "[ip ip …]"   slice of the enumeration, in order
 //   hosts-count <addr> <len>               → number of addresses the generator sent
 //   netsz <len>                            → computeNetSz(len) | panic
+//   estimate <addr> <len>                  → the model's number of enumerated addresses (observed: computeNetSz(len))
+//   estimate-check <addr> <len> <sent> <computeNetSz>   → accept | reject …
 //   cancel <addr> <len> <cap> <occ> <recv> <cancelled>   → returned | blocked
 //   cancel-late <addr> <len> <cap> <occ>                 → returned | blocked   (cancel after the generator is stuck on a full channel)
 
@@ -94,7 +96,7 @@ func c16enumerate(o *vout, a uint32, l int, mode c16mode, deadline time.Duration
 	} else if l <= 30 {
 		want = uint64(1)<<(32-uint(l)) - 2
 	}
-	limit := want + 64 // a generator that runs past this is cut off (reported through the count)
+	limit := want + 1 // a generator that runs past the size of the net is cut off (reported through the count)
 	ctx, cancel := context.WithCancel(context.Background())
 	defer cancel()
 	run := c16start(ctx, inet, make(chan uint32, c16Chunk), true)
@@ -149,6 +151,7 @@ func c16enumerate(o *vout, a uint32, l int, mode c16mode, deadline time.Duration
 			o.line(fmt.Sprintf("%s from %d take %d", pre, i, c16Chunk), c16list(all[i:j]))
 		}
 		o.line(fmt.Sprintf("hosts-count %d %d", a, l), c16count(n, status))
+		c16estimate(o, a, l, n)
 	case c16drain:
 		o.line(fmt.Sprintf("%s from 0 take %d", pre, c16Chunk), c16list(first))
 		start := uint64(0)
@@ -161,6 +164,7 @@ func c16enumerate(o *vout, a uint32, l int, mode c16mode, deadline time.Duration
 		}
 		o.line(fmt.Sprintf("%s from %d take %d", pre, start, c16Chunk), c16list(last))
 		o.line(fmt.Sprintf("hosts-count %d %d", a, l), c16count(n, status))
+		c16estimate(o, a, l, n)
 	case c16head:
 		o.line(fmt.Sprintf("%s from 0 take %d", pre, c16Chunk), c16list(first))
 		if cancelledAt != 0 {
@@ -170,6 +174,15 @@ func c16enumerate(o *vout, a uint32, l int, mode c16mode, deadline time.Duration
 			o.line(fmt.Sprintf("hosts-count %d %d", a, l), c16count(n, status))
 		}
 	}
+}
+
+// the estimate autoDiscover uses for this net against the number of addresses the generator really sent
+// (judged by the oracle: accept iff equal, and equal to the model's count)
+func c16estimate(o *vout, a uint32, l int, n uint64) {
+	if l < 2 {
+		return
+	}
+	o.line(fmt.Sprintf("estimate-check %d %d %d %s", a, l, n, c16netsz(l)), "accept")
 }
 
 func c16count(n uint64, status string) string {
@@ -313,6 +326,12 @@ func TestVerifC16(t *testing.T) {
 	// 2. the probe-count estimate
 	for l := -5; l <= 40; l++ {
 		o.line(fmt.Sprintf("netsz %d", l), c16netsz(l))
+	}
+	// the estimate against the model's enumeration for every length, also where the harness did not drain the net
+	for l := 2; l <= 32; l++ {
+		for _, a := range bases[:4] {
+			o.line(fmt.Sprintf("estimate %d %d", a, l), c16netsz(l))
+		}
 	}
 
 	// 3. cancellation: full / empty / half-full / unbuffered channel, no receiver (and with one), context cancelled
